@@ -308,6 +308,37 @@ def rule_matrix(ctx):
         ctx.ob(R, f"{AUX}::{fn}::matrix", ret in (f"np.asarray(np.matmul({M},{arg}))", f"np.matmul({M},{arg})", f"np.asarray({M}@{arg})"), f"returns {ret}", fi.loc())
 
 
+def rule_grouping(ctx):
+    R = "3PH-GROUP"
+    ctx.rule(R, "_load_mapping sums the per-phase powers by ppc bus: the bus numbers are passed through the bus lookup BEFORE _sum_by_group "
+                "(buses fused by a closed bus-bus switch share a ppc bus and must add up, the later store keeps one value per index); "
+                "_add_ext_grid_sc_impedance returns the admittances it stored (grouped by bus, in the order of the slack buses)")
+    fm = ctx.repo.func(f"{R3}:_load_mapping")
+    calls = [c for c in ast.walk(fm.node) if isinstance(c, ast.Call) and (dotted(c.func) or "").endswith("_sum_by_group")]
+    if not calls:
+        ctx.fail("_load_mapping: _sum_by_group call not found")
+    for c in calls:
+        key = _n(c.args[0])
+        lk = [st for st in ast.walk(fm.node) if isinstance(st, ast.Assign) and _n(st.targets[0]) == key and "bus_lookup[" in _n(st.value)]
+        ok = bool(lk) and all(st.lineno < c.lineno for st in lk)
+        ctx.ob(R, f"{R3}::_load_mapping::lookup-before-group", ok,
+               f"{key} = bus_lookup[...] precedes _sum_by_group({key}, ...)" if ok else
+               f"_sum_by_group groups by `{key}`, which is not (yet) mapped through the bus lookup: loads at buses that are fused into one ppc bus "
+               "overwrite each other", fm.loc(c))
+    fe = ctx.repo.func("pandapower.build_bus:_add_ext_grid_sc_impedance")
+    stores = {}
+    for st in ast.walk(fe.node):
+        if isinstance(st, ast.Assign) and isinstance(st.targets[0], ast.Subscript) and _n(st.targets[0]).startswith("ppc['bus'][buses,"):
+            stores[_n(st.targets[0])[len("ppc['bus'][buses,"):-1]] = _n(st.value)
+    ret = next((x.value for x in ast.walk(fe.node) if isinstance(x, ast.Return) and isinstance(x.value, ast.Tuple)), None)
+    got = [_n(e) for e in ret.elts] if ret is not None else []
+    ok = len(got) == 2 and got[0] == stores.get("GS") and got[1] == stores.get("BS")
+    ctx.ob(R, "pandapower.build_bus::_add_ext_grid_sc_impedance::returns-stored", ok,
+           f"returns ({', '.join(got)}) = values stored at ppc['bus'][buses, GS/BS]" if ok else
+           f"returns ({', '.join(got)}) but stores GS={stores.get('GS')}, BS={stores.get('BS')}: runpp_3ph subtracts the returned values at the sorted slack "
+           "buses", fe.loc())
+
+
 def run(ctx):
     ctx.assume("decides the bookkeeping of the three-phase power flow (element tables, per-phase shares, phase letters / positions, the "
                "constant transformation matrices); the numerical agreement with the symmetric power flow is not decided")
@@ -315,6 +346,7 @@ def run(ctx):
     rule_share(ctx)
     rule_phase(ctx)
     rule_matrix(ctx)
+    rule_grouping(ctx)
 
 
 def variants(repo):
@@ -324,6 +356,8 @@ def variants(repo):
     aux = "pandapower/auxiliary.py"
     V = Variant
     return [
+        V("phase powers grouped before the bus lookup", r3, lambda s: s.replace("                params['b'+phase+typ] = bus_lookup[params['b'+typ]]\n                params['b'+phase+typ], params['P'+phase+typ],\\\n                    params['Q'+phase+typ] = _sum_by_group(params['b'+phase+typ],", "                params['b'+phase+typ], params['P'+phase+typ],\\\n                    params['Q'+phase+typ] = _sum_by_group(params['b'+typ],", 1), "lookup-before-group"),
+        V("ext grid admittances returned per element", "pandapower/build_bus.py", replace_once("    return gs * ppc['baseMVA'], bs * ppc['baseMVA']", "    return y_grid.real * ppc['baseMVA'], y_grid.imag * ppc['baseMVA']"), "returns-stored"),
         V("storage reported but not mapped", r3, replace_once("load_elements = ['load', 'asymmetric_load', 'sgen', 'asymmetric_sgen', 'storage']", "load_elements = ['load', 'asymmetric_load', 'sgen', 'asymmetric_sgen']"), "_load_mapping::storage"),
         V("storage mapped as asymmetric", r3, replace_once("if element in ('load', 'sgen', 'storage'):", "if element in ('load', 'sgen'):"), "symmetric-set"),
         V("input without scaling", r3, replace_once("elm[active, p_mw]/3 * vl * sign])", "elm[active, p_mw]/3 * sign])"), "_get_elements::p-sym"),
